@@ -177,13 +177,15 @@ def check(ctx, facts, cfg):
     # ---------------- (c)
     ncons = 0
     for p, f in sorted(facts.fns.items()):
+        samefile = lambda g, t, f0=f: (not g.reachable and not g.impl_trait and not g.in_trait and g.kind != 'Closure' and g.file == f0.file)
         if f.impl_trait in ('rate::RateEncoder', 'rate::RateDecoder') and f.name == 'new':
-            body = f.body
+            body = core.inlined_fn(facts, p, samefile, tag='c17').body     # private constructor helpers analysed in place
+            live0 = body.reachable_from(0, removed_edges=body.const_pruned_edges())
             if 'rate_default' in p or (f.impl_self_adt or '').startswith('rate::rate_default'):
                 # delegates: every dedicated new() receives the `work` and `engine` params unchanged
                 for b, t in body.calls():
                     k = t['callee'].get('key') or ''
-                    if re.search(r'as rate::Rate(En|De)coder<E>>::new$', k):
+                    if re.search(r'as rate::Rate(En|De)coder<E>>::new$', k) and b in live0:
                         eng, wk = body.canon_op(t['args'][3]), body.canon_op(t['args'][4])
                         if eng == ('param', 'engine') and wk == ('param', 'work'):
                             ncons += 1
@@ -219,11 +221,12 @@ def check(ctx, facts, cfg):
                 ctx.violation('C17.c-work-travels', 'new-drops-work', 'new() does not store the supplied working space (Option parameter unwrapped) in the codec it returns',
                               site=f.span, fn=p, cfg=cfg)
         if f.impl_trait in ('rate::RateEncoder', 'rate::RateDecoder') and f.name == 'reset' and (f.impl_self_adt or '').startswith('rate::rate_default'):
-            body = f.body
+            body = core.inlined_fn(facts, p, samefile, tag='c17').body
+            live0 = body.reachable_from(0, removed_edges=body.const_pruned_edges())
             nsw = 0
             for b, t in body.calls():
                 k = t['callee'].get('key') or ''
-                if re.search(r'as rate::Rate(En|De)coder<E>>::new$', k):
+                if re.search(r'as rate::Rate(En|De)coder<E>>::new$', k) and b in live0:
                     eng, wk = body.canon_op(t['args'][3]), body.canon_op(t['args'][4])
                     src_e = eng[1] if eng[0] == 'field' else None
                     some = wk[0] == 'adt' and wk[2] == 'Some'
@@ -245,7 +248,7 @@ def check(ctx, facts, cfg):
             ctx.violation('C17.d-results-borrow', 'anchor-missing', 'anchor missing: %s' % adt_p, fn=adt_p, cfg=cfg)
             continue
         bad = [(fl['name'], fl['ty']) for v in adt['variants'] for fl in v['fields']
-               if not (fl['ty'].startswith('&') or fl['ty'] in ('bool', 'usize', 'u8', 'u16', 'u32', 'u64'))]
+               if not plain_or_borrowed(fl['ty'])]
         if bad:
             ctx.violation('C17.d-results-borrow', 'owning-field', '%s owns data in field(s) %s: results must borrow the working space' % (adt_p, bad),
                           site=adt['span'], fn=adt_p, cfg=cfg)
@@ -284,6 +287,35 @@ def same_obj(a, b):
             c = c[1]
         return core.strip_var_ids(c)
     return norm(a) == norm(b)
+
+
+SCALARS = ('bool', 'usize', 'u8', 'u16', 'u32', 'u64', 'isize', 'i8', 'i16', 'i32', 'i64', 'char', '()')
+
+
+def plain_or_borrowed(ty):
+    """types that own no heap data: references, scalars, and Option / tuples / ranges of those"""
+    ty = ty.strip()
+    if ty.startswith('&') or ty in SCALARS:
+        return True
+    m = re.match(r'^(?:std|core)::option::Option<(.*)>$', ty) or re.match(r'^(?:std|core)::ops::Range(?:Inclusive|From|To)?<(.*)>$', ty)
+    if m:
+        return plain_or_borrowed(m.group(1))
+    if ty.startswith('(') and ty.endswith(')'):
+        parts, depth, cur = [], 0, ''
+        for ch in ty[1:-1]:
+            if ch in '<([':
+                depth += 1
+            elif ch in '>)]':
+                depth -= 1
+            if ch == ',' and depth == 0:
+                parts.append(cur)
+                cur = ''
+            else:
+                cur += ch
+        if cur.strip():
+            parts.append(cur)
+        return all(plain_or_borrowed(x) for x in parts)
+    return False
 
 
 def exact_need(ctx, facts, cfg):
